@@ -77,6 +77,21 @@ def check_call(stmt):
     return f.attr, ', '.join(ast.unparse(a) for a in c.args)
 
 
+def guard_calls(stmt):
+    """the check calls one statement of a guard body stands for: a plain check call, or
+    `for v in (a, b, ...): checks._check_X(v)` (literal tuple/list, the loop variable is the only argument) = one call per element"""
+    c = check_call(stmt)
+    if c is not None:
+        return [c]
+    if isinstance(stmt, ast.For) and not stmt.orelse and isinstance(stmt.target, ast.Name) and isinstance(stmt.iter, (ast.Tuple, ast.List)) \
+            and len(stmt.body) == 1 and not any(isinstance(e, ast.Starred) for e in stmt.iter.elts):
+        inner = check_call(stmt.body[0])
+        call = stmt.body[0].value if inner is not None else None
+        if inner is not None and len(call.args) == 1 and isinstance(call.args[0], ast.Name) and call.args[0].id == stmt.target.id:
+            return [(inner[0], ast.unparse(e)) for e in stmt.iter.elts]
+    return None
+
+
 def extract(module, src):
     try:
         tree = ast.parse(src)
@@ -133,9 +148,9 @@ def extract(module, src):
                 visit(st.body, (fn + '.' if fn else '') + st.name)
                 continue
             if isinstance(st, ast.If) and is_switch_test(st.test):
-                calls = [check_call(b) for b in st.body]
-                if not st.orelse and calls and all(c is not None for c in calls):
-                    for c in calls:
+                groups = [guard_calls(b) for b in st.body]
+                if not st.orelse and groups and all(g is not None for g in groups):
+                    for c in [c for g in groups for c in g]:
                         sites.append((module, fn or '<module>', c[0], c[1]))
                     for sub in ast.walk(st):
                         consumed.add(id(sub))
